@@ -256,7 +256,7 @@ Print Assumptions C17_flow_request_twin.
    context id and opnum, stub, verification trailer, paddings, security trailer; wrap arguments present iff sealed) equals, octet for octet,
    tr_ept_request tr resp. tr_getkey_request tr.  Anything else is unknown to the world (TypeError).  Once bound / sent, `bind` is
    Handshake.bind_run and `request` is Conversation.rpc_request against the peer script; the other callees are their models. *)
-From V Require Import gen.F_online Flow.World_online Proofs.Flow_online_conv.
+From V Require Import gen.F_online Flow.World_online Proofs.Flow_online_ept Proofs.Flow_online_conv.
 
 Theorem C17_flow_process_ept_map_result : forall wrap unwrap prov legs dc efuel server username password auth_protocol tr fuel rsp,
   run (WO wrap unwrap prov legs dc efuel server username password auth_protocol tr) fuel k_flow_process_ept_map_result [VO (OResp rsp)]
@@ -321,3 +321,198 @@ Example C17_flow_mutants_refused :
   mutant_port0 <> k_flow_sync_get_key /\ mutant_ctx_opnum <> k_flow_sync_get_key /\
   run ex_world 0 mutant_port0 ex_args = Raise TypeError /\ run ex_world 0 mutant_ctx_opnum ex_args = Raise TypeError.
 Proof. exact (conj (proj1 mutants_differ) (conj (proj2 mutants_differ) (conj mutant_port0_refused mutant_ctx_opnum_refused))). Qed.
+
+(* ---- the result, composed with C01-C03 (Proofs/C17Compose.v): what the conversation returns is what the round trip needs -------------
+   protected_blob c h rk rkid s sid l0 l1 l2 data blob: the blob parses (C06) to an AES256-wrap / AES256-GCM blob for the SID whose key
+   identifier names (rkid, l0, l1, l2) and whose KEK is the one EVERY seed-key envelope conforming to MS-GKDI 2.2.4 for (rk, SD, l0) and
+   covering (l1, l2) yields.  env_ok (Proofs/C01Lib.v) is that per-envelope conformance -- the predicate cache_ok of C01 / C19 imposes on
+   the cache entry: flag bit 0 clear, same KDF / secret agreement parameters as the root key, L1 / L2 key fields = chain keys of
+   Spec/GkdiSpec.v.  unprotect_via_dc / protect_via_dc: Client.unprotect_offline / protect_offline with the cache-miss branch filled in by
+   a GetKey oracle (C17_via_no_dc: with no DC they ARE the offline functions).  dc_marshals f unwrap dc sign e: the RESPONSE the peer script
+   delivers, once unwrapped, is the NDR64 reply of the packed e plus declared padding (the hypotheses of C17_result's last clause). *)
+From V Require Import Model.Crypto Model.Sym Model.KeyId Model.Kek Model.SecDesc Model.Blob Model.Interval Model.Client.
+From V Require Import Spec.GkdiSpec Spec.KekSpec Proofs.C02 Proofs.BlobPkcs7 Proofs.BlobMain Proofs.C01Lib Proofs.C01 Proofs.C17Compose.
+
+(* C17_result read as an equation: a successful conversation with a script marshalling e returns e *)
+Theorem C17_dc_envelope : forall (wrap : wrap_fn) (unwrap : unwrap_fn) pv f legs dc sd rk l0 l1 l2 env t e,
+  get_key_conversation f wrap unwrap pv legs dc sd rk l0 l1 l2 = (Ok env, t) -> dc_marshals f unwrap dc (tr_sign t) e -> env = e.
+Proof. exact conversation_envelope. Qed.
+Print Assumptions C17_dc_envelope.
+
+(* (1) UNPROTECT with the envelope: a protected blob names exactly (SD, rkid, l0, l1, l2) -- the request of C17_unprotect_request -- and
+   every conforming envelope e covering (l1, l2) decrypts it: _decrypt_blob returns the plaintext, e is a seed-key envelope (so it is
+   stored), and the cache after the store -- from an empty cache, or any cache holding e -- serves the blob without network *)
+Theorem C17_unprotect_with_envelope : forall (c : Crypto) h rk rkid (s : SecDesc.sid) (sid : pystr) l0 l1 l2,
+  rk_hash rk = Ok h -> rk_kdf_alg rk = STR_KDF_ALG -> len rkid = 16 -> sid_parse sid = Ok s -> sid_okb sid = true ->
+  0 <= l0 <= 2147483647 -> 0 <= l1 <= 31 -> 0 <= l2 <= 31 -> CryptoLaws c ->
+  forall data blob, protected_blob c h rk rkid s sid l0 l1 l2 data blob ->
+  exists b, blob_unpack blob = Ok b /\ get_target_sd (b_sid b) = Ok (target_sd s) /\
+    kid_rkid (b_key_identifier b) = rkid /\ kid_l0 (b_key_identifier b) = l0 /\ kid_l1 (b_key_identifier b) = l1 /\
+    kid_l2 (b_key_identifier b) = l2 /\
+    forall e, env_ok c h rk rkid (target_sd s) l0 e -> covers (env_of e) l1 l2 ->
+      gke_is_public_key e = false /\ decrypt_blob c b e = Ok data /\
+      unprotect_offline c (cc_store_key cc_empty (target_sd s) e) blob = (Ok data, cc_store_key cc_empty (target_sd s) e) /\
+      forall cache, cc_find_seed (cc_seeds cache) (rkid, target_sd s, l0) = Some e -> unprotect_offline c cache blob = (Ok data, cache).
+Proof. exact compose_unprotect_envelope. Qed.
+Print Assumptions C17_unprotect_with_envelope.
+
+(* every producer of the model yields protected blobs: protect_offline from the loaded root key (hypotheses of C01_roundtrip_offline) ... *)
+Theorem C17_protected_offline : forall (c : Crypto) h rk rkid (s : SecDesc.sid) (sid : pystr) time_ns l0 l1 l2,
+  rk_hash rk = Ok h -> rk_kdf_alg rk = STR_KDF_ALG -> len rkid = 16 -> sid_parse sid = Ok s -> sid_okb sid = true ->
+  0 <= time_ns -> interval_of_time_ns time_ns = (l0, l1, l2) -> kdf_nonempty c ->
+  forall cache r1 r2 r3 data blob cache1,
+  cache_ok c h rk rkid (target_sd s) l0 cache -> len r2 = 12 -> len r3 = 32 ->
+  (forall kek w, derived_kek c h rk rkid (target_sd s) l0 l1 l2 r3 = Ok kek -> kw_wrap c kek r1 = Ok w -> len w < BlobPkcs7.U32) ->
+  (forall ct, gcm_enc c r1 r2 data = Ok ct -> len ct < BlobPkcs7.U32) ->
+  protect_offline c cache r1 r2 r3 data sid (Some rkid) time_ns = (Ok blob, cache1) ->
+  protected_blob c h rk rkid s sid l0 l1 l2 data blob.
+Proof. exact compose_protected_offline. Qed.
+Print Assumptions C17_protected_offline.
+
+(* ... and (2) PROTECT with the envelope: _encrypt_blob on what a conforming DC delivers for the current position (l0, l1, l2) --
+   protect_env_ok: a seed-key envelope (env_ok at exactly (l1, l2); where 2.2.4 makes the L2 key optional, L2 = 31, the field is absent or
+   the chain key), or a DH / ECDH public-key envelope (dh_env_ok / ecdh_env_ok of C01), each with the size side conditions of C06 on the
+   draws -- yields a protected blob; its LAPS re-layout is protected too; both decrypt offline with ANY cache satisfying cache_ok (C01's
+   conclusion) and, being protected, online by (1) *)
+Theorem C17_protect_with_envelope : forall (c : Crypto) h rk rkid (s : SecDesc.sid) (sid : pystr) l0 l1 l2,
+  rk_hash rk = Ok h -> rk_kdf_alg rk = STR_KDF_ALG -> len rkid = 16 -> sid_parse sid = Ok s -> sid_okb sid = true ->
+  0 <= l0 <= 2147483647 -> 0 <= l1 <= 31 -> 0 <= l2 <= 31 -> CryptoLaws c ->
+  forall e r1 r2 r3 data blob,
+  protect_env_ok c h rk rkid s l0 l1 l2 e r1 r3 -> len r2 = 12 -> (forall ct, gcm_enc c r1 r2 data = Ok ct -> len ct < BlobPkcs7.U32) ->
+  encrypt_blob c r1 r2 r3 data e sid = Ok blob ->
+  protected_blob c h rk rkid s sid l0 l1 l2 data blob /\
+  (exists blob2, (let* b := blob_unpack blob in blob_pack b false) = Ok blob2 /\ protected_blob c h rk rkid s sid l0 l1 l2 data blob2) /\
+  forall X, cache_ok c h rk rkid (target_sd s) l0 X ->
+    fst (unprotect_offline c X blob) = Ok data /\
+    forall blob2, (let* b := blob_unpack blob in blob_pack b false) = Ok blob2 -> fst (unprotect_offline c X blob2) = Ok data.
+Proof. exact compose_protect_envelope. Qed.
+Print Assumptions C17_protect_with_envelope.
+
+(* protected_blob is not weaker than what C01 concludes: any cache in which the root key is loaded decrypts it, both layouts *)
+Theorem C17_protected_roundtrip : forall (c : Crypto) h rk rkid (s : SecDesc.sid) (sid : pystr) l0 l1 l2,
+  rk_hash rk = Ok h -> rk_kdf_alg rk = STR_KDF_ALG -> len rkid = 16 -> sid_parse sid = Ok s -> sid_okb sid = true ->
+  0 <= l0 <= 2147483647 -> 0 <= l1 <= 31 -> 0 <= l2 <= 31 -> CryptoLaws c ->
+  forall data blob, protected_blob c h rk rkid s sid l0 l1 l2 data blob ->
+  (exists blob2, (let* b := blob_unpack blob in blob_pack b false) = Ok blob2) /\
+  forall X, cache_ok c h rk rkid (target_sd s) l0 X ->
+    fst (unprotect_offline c X blob) = Ok data /\
+    forall blob2, (let* b := blob_unpack blob in blob_pack b false) = Ok blob2 -> fst (unprotect_offline c X blob2) = Ok data.
+Proof. exact compose_protected_offline_roundtrip. Qed.
+Print Assumptions C17_protected_roundtrip.
+
+(* (3) UNPROTECT end to end.  Hypotheses of C17_result -- the conversation for the blob's key identifier succeeds against the script dc --
+   + dc marshals e + e conforms for (rk, SD, l0) and covers (l1, l2).  The caller's cache is arbitrary but for: its entry of the triple, if
+   any, conforms (seeds_ok), and a root key loaded under rkid is rk.  Then: the caller got e; ncrypt_unprotect_secret returns the plaintext;
+   the cache it leaves serves the blob again with no network; from a cache with neither root key nor entry that cache is the old one with
+   e stored.  With C17_unprotect_request (the request IS the blob's (SD, rkid, l0, l1, l2)) this is "results equal what C01-C03 prescribe" *)
+Theorem C17_online_unprotect : forall (c : Crypto) h rk rkid (s : SecDesc.sid) (sid : pystr) l0 l1 l2,
+  rk_hash rk = Ok h -> rk_kdf_alg rk = STR_KDF_ALG -> len rkid = 16 -> sid_parse sid = Ok s -> sid_okb sid = true ->
+  0 <= l0 <= 2147483647 -> 0 <= l1 <= 31 -> 0 <= l2 <= 31 -> CryptoLaws c ->
+  forall (wrap : wrap_fn) (unwrap : unwrap_fn) pv f legs dc cache data blob env t e,
+  protected_blob c h rk rkid s sid l0 l1 l2 data blob ->
+  seeds_ok c h rk rkid s l0 cache -> (forall rk', cc_find_root (cc_roots cache) rkid = Some rk' -> rk' = rk) ->
+  (forall b, blob_unpack blob = Ok b -> unprotect_get_key f wrap unwrap pv legs dc (target_sd s) (b_key_identifier b) = (Ok env, t)) ->
+  dc_marshals f unwrap dc (tr_sign t) e ->
+  env_ok c h rk rkid (target_sd s) l0 e -> covers (env_of e) l1 l2 ->
+  env = e /\
+  exists cache',
+    unprotect_via_dc c (fun tsd kid => fst (unprotect_get_key f wrap unwrap pv legs dc tsd kid)) cache blob = (Ok data, cache') /\
+    unprotect_offline c cache' blob = (Ok data, cache') /\
+    (cc_find_root (cc_roots cache) rkid = None -> cc_find_seed (cc_seeds cache) (rkid, target_sd s, l0) = None ->
+     cache' = cc_set_seed cache (rkid, target_sd s, l0) e).
+Proof. exact compose_online_unprotect. Qed.
+Print Assumptions C17_online_unprotect.
+
+(* (3) PROTECT end to end, on a cache miss (always the case without a root key id: C17_protect_miss): the conversation asks for "the
+   current key" (C17_protect_request), dc marshals e, e is what MS-GKDI prescribes for the position and root key the DC chose
+   (protect_env_ok fixes gke_l0 e = l0, gke_l1 e = l1, gke_l2 e = l2, gke_rkid e = rkid).  Then: the caller got e; the blob is protected
+   (so C17_online_unprotect / C17_unprotect_with_envelope apply to it); a seed-key e is stored and the caller's own cache then decrypts
+   the blob with no network; any cache with the root key loaded decrypts it, both layouts *)
+Theorem C17_online_protect : forall (c : Crypto) h rk rkid (s : SecDesc.sid) (sid : pystr) l0 l1 l2,
+  rk_hash rk = Ok h -> rk_kdf_alg rk = STR_KDF_ALG -> len rkid = 16 -> sid_parse sid = Ok s -> sid_okb sid = true ->
+  0 <= l0 <= 2147483647 -> 0 <= l1 <= 31 -> 0 <= l2 <= 31 -> CryptoLaws c ->
+  forall (wrap : wrap_fn) (unwrap : unwrap_fn) pv f legs dc cache cache1 rko time_ns r1 r2 r3 data blob cache' env t e,
+  protection_gke_from_cache c cache rko (target_sd s) time_ns = Ok (None, cache1) ->
+  protect_get_key f wrap unwrap pv legs dc (target_sd s) rko = (Ok env, t) ->
+  dc_marshals f unwrap dc (tr_sign t) e ->
+  protect_env_ok c h rk rkid s l0 l1 l2 e r1 r3 -> len r2 = 12 -> (forall ct, gcm_enc c r1 r2 data = Ok ct -> len ct < BlobPkcs7.U32) ->
+  protect_via_dc c (fun sd rko => fst (protect_get_key f wrap unwrap pv legs dc sd rko)) cache r1 r2 r3 data sid rko time_ns = (Ok blob, cache') ->
+  env = e /\ protected_blob c h rk rkid s sid l0 l1 l2 data blob /\
+  cache' = (if gke_is_public_key e then cache1 else cc_store_key cache1 (target_sd s) e) /\
+  (gke_is_public_key e = false -> seeds_ok c h rk rkid s l0 cache1 -> unprotect_offline c cache' blob = (Ok data, cache')) /\
+  forall X, cache_ok c h rk rkid (target_sd s) l0 X ->
+    fst (unprotect_offline c X blob) = Ok data /\
+    forall blob2, (let* b := blob_unpack blob in blob_pack b false) = Ok blob2 -> fst (unprotect_offline c X blob2) = Ok data.
+Proof. exact compose_online_protect. Qed.
+Print Assumptions C17_online_protect.
+Theorem C17_protect_miss : forall c cache sd time_ns, protection_gke_from_cache c cache None sd time_ns = Ok (None, cache).
+Proof. exact protect_miss_no_rkid. Qed.
+Print Assumptions C17_protect_miss.
+
+(* with no reachable DC the two composed functions are the offline functions of C01 / C10 / C19 *)
+Theorem C17_via_no_dc : forall c cache data r1 r2 r3 sid rkid ns,
+  unprotect_via_dc c (fun _ _ => Raise NeedNetwork) cache data = unprotect_offline c cache data /\
+  protect_via_dc c (fun _ _ => Raise NeedNetwork) cache r1 r2 r3 data sid rkid ns = protect_offline c cache r1 r2 r3 data sid rkid ns.
+Proof. exact (fun c cache data r1 r2 r3 sid rkid ns => conj (unprotect_via_no_dc c cache data) (protect_via_no_dc c cache r1 r2 r3 data sid rkid ns)). Qed.
+Print Assumptions C17_via_no_dc.
+
+(* dc_marshals can be checked by running the client's own reply path on the script *)
+Theorem C17_dc_marshals_by_running : forall f unwrap dc sg e rsp out reply padding st,
+  script_response f unwrap dc sg = Ok rsp ->
+  wf_env e = true -> GroupKeyEnvelope_pack e = Ok out -> ndr64_getkey_reply out 0 = Some reply ->
+  rs_stub_data rsp = reply ++ padding -> rs_sec_trailer rsp = Some st -> st_pad_length st = len padding ->
+  dc_marshals f unwrap dc sg e.
+Proof. exact dc_marshals_of_response. Qed.
+Print Assumptions C17_dc_marshals_by_running.
+
+(* ---- the hypotheses are satisfiable (symbolic crypto symg; root key, SID, clock, draws of C01's examples, position (361, 31, 23)).
+   exc_dc: the peer script of C17_conversation_example with the GetKey stream replaced by the RESPONSE marshalling exc_env, the seed-key
+   envelope MS-GKDI prescribes for this root key at exactly (361, 31, 23) (L1 key = K1(30), L2 key = K2(31, 23)).  Both instances are
+   obtained by APPLYING C17_online_unprotect / C17_online_protect to values for which every hypothesis is checked. ---- *)
+Example C17_dc_reply_example :
+  env_ok symg SHA512 Proofs.C01.ex_rk ex_rkid Proofs.C01.ex_sd 361 exc_env /\ covers (env_of exc_env) 31 23 /\
+  seed_env_ok symg SHA512 Proofs.C01.ex_rk ex_rkid (parsed ex_sid) 361 31 23 exc_env /\
+  forall f, dc_marshals f ex_unwrap exc_dc true exc_env.
+Proof. exact (conj exc_env_ok (conj exc_env_covers (conj exc_seed_env_ok exc_dc_marshals))). Qed.
+Example C17_online_unprotect_example :
+  exists blob cache1 t,
+    protect_offline symg ex_cache ex_r1 ex_r2 ex_r3 [1; 2; 3] ex_sid (Some ex_rkid) ex_time = (Ok blob, cache1) /\
+    protected_blob symg SHA512 Proofs.C01.ex_rk ex_rkid (parsed ex_sid) ex_sid 361 31 23 [1; 2; 3] blob /\
+    (forall b, blob_unpack blob = Ok b ->
+       unprotect_get_key Async ex_wrap ex_unwrap ex_pv ex_legs exc_dc Proofs.C01.ex_sd (b_key_identifier b) = (Ok exc_env, t)) /\
+    dc_marshals Async ex_unwrap exc_dc (tr_sign t) exc_env /\
+    unprotect_via_dc symg (exc_oracle_u Async) cc_empty blob = (Ok [1; 2; 3], cc_set_seed cc_empty (ex_rkid, Proofs.C01.ex_sd, 361) exc_env) /\
+    unprotect_offline symg (cc_set_seed cc_empty (ex_rkid, Proofs.C01.ex_sd, 361) exc_env) blob
+      = (Ok [1; 2; 3], cc_set_seed cc_empty (ex_rkid, Proofs.C01.ex_sd, 361) exc_env).
+Proof. exact example_online_unprotect. Qed.
+Example C17_online_protect_example :
+  exists blob cache' t,
+    protect_get_key Sync ex_wrap ex_unwrap ex_pv ex_legs exc_dc Proofs.C01.ex_sd None = (Ok exc_env, t) /\
+    dc_marshals Sync ex_unwrap exc_dc (tr_sign t) exc_env /\
+    protect_env_ok symg SHA512 Proofs.C01.ex_rk ex_rkid (parsed ex_sid) 361 31 23 exc_env ex_r1 ex_r3 /\
+    protect_via_dc symg (exc_oracle_p Sync) cc_empty ex_r1 ex_r2 ex_r3 [1; 2; 3] ex_sid None ex_time = (Ok blob, cache') /\
+    cache' = cc_store_key cc_empty Proofs.C01.ex_sd exc_env /\
+    protected_blob symg SHA512 Proofs.C01.ex_rk ex_rkid (parsed ex_sid) ex_sid 361 31 23 [1; 2; 3] blob /\
+    unprotect_offline symg cache' blob = (Ok [1; 2; 3], cache') /\
+    fst (unprotect_offline symg ex_cache blob) = Ok [1; 2; 3].
+Proof. exact example_online_protect. Qed.
+Example C17_protect_env_pubkey_examples :
+  protect_env_ok symg SHA512 Proofs.C01.ex_rk ex_rkid (parsed ex_sid) 361 31 23 ex_ep_dh ex_r1 ex_r3 /\
+  protect_env_ok symg SHA512 ex_rkE ex_rkid (parsed ex_sid) 361 31 23 ex_ep_ecdh ex_r1 ex_r3.
+Proof. exact (conj example_protect_env_dh example_protect_env_ecdh). Qed.
+
+(* ---- the two forms of "the public function with the cache-miss branch filled in" are one function --------------------------------
+   Flow_cache_public.unprotect_online / protect_online are what C10's flow ties identify with the regenerated ncrypt_unprotect_secret /
+   ncrypt_protect_secret (both flavours); unprotect_via_dc / protect_via_dc are what C17_online_unprotect / C17_online_protect are about.
+   They are equal, the model-valued oracle being the interpreter-valued one applied to
+   (server or the DC found for the domain, target_sd, root key id, L0, L1, L2 resp. -1, -1, -1, username, password, auth_protocol). *)
+From V Require Import Flow.World_cache Proofs.Flow_cache_public Proofs.C17Compose Proofs.C17Bridge.
+Theorem C17_unprotect_online_is_via_dc : forall c dns oracle cache data server u p a,
+  unprotect_online c dns oracle cache data server u p a = unprotect_via_dc c (unprotect_getkey dns oracle server u p a) cache data.
+Proof. exact unprotect_online_via_dc. Qed.
+Print Assumptions C17_unprotect_online_is_via_dc.
+Theorem C17_protect_online_is_via_dc : forall c dns oracle r1 r2 r3 ns cache data sid rkid server dom u p a,
+  protect_online c r1 r2 r3 ns dns oracle cache data sid rkid server dom u p a
+  = protect_via_dc c (protect_getkey dns oracle server dom u p a) cache r1 r2 r3 data sid rkid ns.
+Proof. exact protect_online_via_dc. Qed.
+Print Assumptions C17_protect_online_is_via_dc.
